@@ -280,5 +280,15 @@ class TreeStruct:
     def pred(self, ref):
         return z3.Or(WFN(ref), WFR(ref), IS_CHILDREN(ref))
 
+    def base_axioms(self, eng, st):
+        if st.ghost.get("treestruct_axioms"):
+            return
+        st.ghost["treestruct_axioms"] = True
+        r = z3.Int("ts_r")
+        a0 = eng.entry_heap.alloc
+        st.assume(z3.ForAll([r], z3.Implies(WFN(r), r < a0), patterns=[WFN(r)]),
+                  z3.ForAll([r], z3.Implies(WFR(r), r < a0), patterns=[WFR(r)]),
+                  z3.ForAll([r], z3.Implies(IS_CHILDREN(r), r < a0), patterns=[IS_CHILDREN(r)]))
+
 
 REG.tree_struct = TreeStruct()
